@@ -50,6 +50,10 @@ func TestVerif(t *testing.T) {
 	simkit.Main(t, propC14())
 	simkit.Main(t, propC43())
 	simkit.Main(t, propC46())
+	simkit.Main(t, propC47())
+	simkit.Main(t, propC07())
+	simkit.Main(t, propC44())
+	simkit.Main(t, propC18())
 }
 
 // ---------------------------------------------------------------------------------------
